@@ -39,7 +39,14 @@ OPS_CTX = [
     "AT %c " + hx("outer=a|inner") + " " + hx("third"),
     "VF %c " + hx("outer|v") + " v",
     "RT %c " + hx("outer") + " " + hx("a"),
+    # a callback registered through ONE instance of the outer section, on an option of a nested multi section; instances
+    # of the nested section created afterwards in that instance and in a sibling: only the former may see the callback
+    "VFS %c " + hx("outer=a") + " " + hx("inner|v") + " v",
+    "VFS %c " + hx("outer=b") + " " + hx("inner|name") + " w",
+    "PB %c " + hx(b'outer b { inner late1 { v = 5 name = x } }\nouter a { inner late2 { v = 6 } }\nouter c { inner late3 { v = 8 } }\n'),
+    "SS %c " + hx("outer=a|inner=late2|name") + " 0 " + hx("set"),
 ]
+FOCUS = [0, 1, 11, 12, 13, 14, 9, 8]
 
 
 def mk(cid, seq):
@@ -63,6 +70,8 @@ def generate(rng, tier):
         if L >= 3:
             combos = rng.sample(combos, min(len(combos), 150 if tier == "quick" else 3000))
         solos += combos
+    focus = list(itertools.permutations(FOCUS, 3)) + rng.sample(list(itertools.permutations(FOCUS, 4)), 200 if tier == "quick" else 1680)
+    solos += [f for f in focus if f not in set(solos)]
     for s in solos:
         cases.append(mk("solo%d" % n, [(0, oi) for oi in s]))
         n += 1
